@@ -25,4 +25,75 @@ CONTRACTS = {
     ensures=[('length', 'len(result) == len(pref_list)'),
              ('tokens', 'forall(j, 0, len(result), kind(result[j]) == spec_kind(ties_indicators, j, len(pref_list))'
                         ' and value(result[j]) == pref_list[j])')]),
+
+ # Over the reals (floating point is outside the contract, DESIGN 13).  skew is a float, number_agents an int.
+ M + 'create_linear_distribution': dict(
+    params={'number_agents': 'int', 'skew': 'real'},
+    requires=['number_agents >= 1', 'skew > 0'],
+    defs={'C': ([], '(skew - 1) / (number_agents - 1)')},        # common difference of the un-normalised weights
+    loops={0: dict(invariant=[
+        'len(distribution) == number_agents',
+        'forall(j, 0, _k + 1, distribution[j] == 1 + j * C())',
+        'forall(j, 0, _k + 1, distribution[j] > 0)'])},
+    use_lemmas={'return': [
+        ('C17/sum-positive', {'d': 'distribution', 'n': 'number_agents'}),
+        ('C17/scaled-sum', {'d': 'distribution', 'n': 'number_agents', 'S': 'SumR(j, number_agents, distribution[j])',
+                            'r': 'distribution / SumR(j, number_agents, distribution[j])'})]},
+    returns=('list', 'real'),
+    ensures=[('length', 'len(result) == number_agents'),
+             ('positive', 'forall(j, 0, number_agents, result[j] > 0)'),
+             ('sums-to-one', 'SumR(j, number_agents, result[j]) == 1'),
+             ('arithmetic-progression', 'forall(j, 0, number_agents - 2, result[j+2] - result[j+1] == result[j+1] - result[j])'),
+             ('last-is-skew-times-first', 'implies(number_agents >= 2, result[number_agents - 1] == skew * result[0])'),
+             ('single-agent-weight-one', 'implies(number_agents == 1, result[0] == 1)')]),
+
+ # T10: np.random.choice draws each indicator from {0,1}; a value of probability 0 never occurs
+ M + 'create_ties_indicators': dict(
+    params={'pref_lists': ('list', ('list', 'int')), 'ties_prob': 'real'},
+    locals={'ties_indicators': ('list', ('list', 'int'))},
+    requires=['0 <= ties_prob', 'ties_prob <= 1'],
+    loops={0: dict(invariant=[
+        'len(ties_indicators) == _k',
+        'forall(x, 0, _k, len(ties_indicators[x]) == len(pref_lists[x]))',
+        'forall(x, 0, _k, forall(j, 0, len(pref_lists[x]), (ties_indicators[x][j] == 0 or ties_indicators[x][j] == 1)'
+        ' and implies(ties_prob == 0, ties_indicators[x][j] == 0) and implies(ties_prob == 1, ties_indicators[x][j] == 1)))'])},
+    returns=('list', ('list', 'int')),
+    ensures=[('same-shape', 'len(result) == len(pref_lists) and forall(x, 0, len(result), len(result[x]) == len(pref_lists[x]))'),
+             ('indicators', 'forall(x, 0, len(result), forall(j, 0, len(result[x]), (result[x][j] == 0 or result[x][j] == 1)'
+                            ' and implies(ties_prob == 0, result[x][j] == 0) and implies(ties_prob == 1, result[x][j] == 1)))')]),
+
+ # C12: an agent of the second side lists an agent of the first side exactly once iff that agent lists it.
+ # Stated over the element-set view of lists (pyvc/listsets.py): elems(L), pelems(L, k), dupfree(L).
+ M + 'create_pref_lists_from_other_lists': dict(
+    params={'pref_lists_agent1': ('list', ('list', 'int')), 'n2': 'int', 'ties2': 'real'},
+    locals={'prefs_lists_agent2': ('list', ('list', 'int'))},
+    theory=['listsets'],
+    defs={'n1': ([], 'len(pref_lists_agent1)'),
+          # second-side agent h+1 is listed by first-side agent v (1-based)
+          'listed_by': (['h', 'v'], '1 <= v and v <= n1() and (h + 1) in elems(pref_lists_agent1[v - 1])')},
+    requires=['n2 >= 0', '0 <= ties2', 'ties2 <= 1',
+              ('entries-in-range', 'forall(i, 0, n1(), forall(x, implies(x in elems(pref_lists_agent1[i]), 1 <= x and x <= n2)))'),
+              ('first-side-lists-duplicate-free', 'forall(i, 0, n1(), dupfree(pref_lists_agent1[i]))')],
+    loops={
+      0: dict(invariant=[
+        'len(prefs_lists_agent2) == n2',
+        'forall(h, 0, n2, dupfree(prefs_lists_agent2[h]))',
+        'forall(h, 0, n2, forall(v, (v in elems(prefs_lists_agent2[h])) == (v <= _k and listed_by(h, v))))']),
+      1: dict(invariant=[
+        'len(prefs_lists_agent2) == n2',
+        'forall(h, 0, n2, dupfree(prefs_lists_agent2[h]))',
+        'forall(h, 0, n2, forall(v, (v in elems(prefs_lists_agent2[h])) == ((v <= _k0 and listed_by(h, v))'
+        ' or (v == _k0 + 1 and (h + 1) in pelems(pref_lists_agent1[_k0], _k)))))']),
+      2: dict(invariant=[
+        'len(prefs_lists_agent2) == n2',
+        'forall(h, 0, n2, dupfree(prefs_lists_agent2[h]))',
+        'forall(h, 0, n2, forall(v, (v in elems(prefs_lists_agent2[h])) == listed_by(h, v)))']),
+    },
+    returns=('tuple', ('list', ('list', 'int')), ('list', ('list', 'int'))),
+    ensures=[('one-list-per-second-side-agent', 'len(result0) == n2'),
+             ('lists-iff-listed-and-no-other-agent', 'forall(h, 0, n2, forall(v, (v in elems(result0[h])) == listed_by(h, v)))'),
+             ('exactly-once', 'forall(h, 0, n2, dupfree(result0[h]))'),
+             ('ties-shape', 'len(result1) == n2 and forall(h, 0, n2, len(result1[h]) == len(result0[h]))'),
+             ('ties-values', 'forall(h, 0, n2, forall(j, 0, len(result1[h]), (result1[h][j] == 0 or result1[h][j] == 1)'
+                             ' and implies(ties2 == 0, result1[h][j] == 0) and implies(ties2 == 1, result1[h][j] == 1)))')]),
 }
